@@ -428,6 +428,8 @@ def make_history(rng, tid, weights, nops=None, plat=None, **seedkw):
             ops.append(dict(act="DeleteShadow", skip=op["skip"], expect_empty=True))
         if op["act"] == "Copy" or op["act"] == "DataRoundTrip":
             ops.append(dict(act="TwinOp", op=rng.choice(["platform", "resequence", "pop", "note", "members", "ports", "line", "sort"])))
+    for name in list(gdict):     # members in the platform's own spellings (a prefix on IOS is a foreign spelling: C06 two-step domain)
+        gdict[name] = [native_only(m, plat) for m in gdict[name]]
     for name in list(gdict):     # a group may list an address twice (same or another spelling): still two members
         if gdict[name] and rng.random() < 0.25:
             m0 = rng.choice(gdict[name])
